@@ -41,6 +41,8 @@ def run(prog, tier):
     early = _error_inputs(prog, c, ce)
     from .axrules import gp_axis_obligations
     early = early + gp_axis_obligations(prog, "axis-order", ["__call__", "build_posterior"])
+    from .gpm import routing_obligations
+    early = early + [o for o in routing_obligations(prog, "GpRegressor", "hyperparameter-routing", REL) if o.construct.endswith("set_hyperparameters")]
     obs.extend(early)
     try:
         return _run_rest(prog, tier, obs, info, problems)
@@ -221,6 +223,26 @@ def _error_inputs(prog, c, fn):
     out.append(struct_ob("error-input-typestate", qual(c, fn) + "[covariance-as-given]", bool(rets_cov) and not other,
                          "a data covariance passed as y_cov must be used unchanged: " + (why or "no return on the y_cov arm"), REL,
                          other[0].lineno if other else fn.lineno, tier="F"))
+    # what the caller gave is what is used: the error arguments are re-bound only to array conversions of themselves
+    def pure_conversion(e, name):
+        while True:
+            if isinstance(e, ast.Call) and isinstance(e.func, ast.Attribute) and e.func.attr in ("squeeze", "copy", "flatten", "ravel") and not e.args:
+                e = e.func.value
+            elif isinstance(e, ast.Call) and U(e.func) in ("array", "asarray", "atleast_1d", "asanyarray") and len(e.args) == 1 \
+                    and all(k.arg == "dtype" for k in e.keywords):
+                e = e.args[0]
+            else:
+                break
+        return isinstance(e, ast.Name) and e.id == name
+    altered = []
+    for var in ("y_err", "y_cov"):
+        for st in ast.walk(fn):
+            tg = st.targets[0] if isinstance(st, ast.Assign) and len(st.targets) == 1 else st.target if isinstance(st, ast.AugAssign) else None
+            if tg is not None and U(tg) == var and not (isinstance(st, ast.Assign) and pure_conversion(st.value, var)):
+                altered.append((st.lineno, U(st)[:100]))
+    out.append(struct_ob("error-input-typestate", qual(c, fn) + "[errors-as-given]", not altered,
+                         "the data errors the caller passed must be used unchanged (a list / tuple may be converted to an array): "
+                         + "; ".join(f"line {l}: `{t}`" for l, t in altered[:2]), REL, altered[0][0] if altered else fn.lineno, tier="E"))
     # the standard-deviation arm returns diag(y_err**2)
     rets = [n for st in arms["y_err"] for n in ast.walk(st) if isinstance(n, ast.Return)]
     deferred = None
